@@ -64,6 +64,17 @@ def attribute(pid, wd, fail, tag):
         _, fl = vlib.validate_trace(pid, "ChanTrace", cfg, p, max_failures=1, tag="attr" + g)
         if not fl:
             groups.add(g)
+    # C09 also states that the messages held for a monitor update come out "in the order the protocol
+    # requires": a protocol-order / content rejection of a message released by a completion belongs to it too
+    ev = fail["rec"]
+    if ev.get("ev") == "msg" and groups & {"C01", "C05"}:
+        prior = fail["run_events"][:fail["pos_in_run"] - 1]
+        for e in reversed(prior):
+            if e["ev"] in ("msg", "persist", "mgr_snap", "event", "broadcast"):
+                continue
+            if e["ev"] == "complete":
+                groups.add("C09")
+            break
     return groups
 
 
